@@ -33,7 +33,7 @@ def paragraphs():
         for m in sorted(glob.glob(os.path.join(V, "seeded", pid + "-*", "meta.json"))):
             j = json.load(open(m))
             det = [p for p, d in sorted(j.get("detected_by", {}).items()) if d.get("exit") == 1]
-            seeds.append("%s (%s)" % (os.path.basename(os.path.dirname(m)), "caught by " + ", ".join(det) if det else "MISSED"))
+            seeds.append("%s (%s)" % (os.path.basename(os.path.dirname(m)), "caught by " + ", ".join(det) if det else ("harmless since " + j["obsolete_since"]["commit"] + ", nothing to report" if j.get("obsolete_since") else "MISSED")))
         p = ["**As built.** Files: %s; harness family `%s`." % MODELS[pid],
              "Theorems in `Properties/%s.v` (each `Closed under the global context`): %s." % (pid, ", ".join("`%s`" % n for n in names)),
              c["text"], "Technique: " + c["technique"] + ".", "Limits / trusted: " + c["note"]]
